@@ -1,8 +1,8 @@
 /-
 Hybrid propulsion: the PTI/PTO is one machine seen from the electric and the shaft side
 (`feems/system_model.py:1151-1177`): electric balance, shaft balance, and the electric balance again
-if any step of the series is in full-PTI mode.  Per step, for a PTI/PTO in given-power mode on the
-electric side; `f` = shaft → electric (`get_power_input_from_bidirectional_output`), `g` = electric →
+if any step of the series is in full-PTI mode (and then, when a PTI/PTO shares the bus load, the shaft
+balance again).  Per step; `f` = shaft → electric (`get_power_input_from_bidirectional_output`), `g` = electric →
 shaft (`get_power_output_from_bidirectional_input`) of that machine.
 -/
 import FeemsModel.Model.Basic
@@ -16,16 +16,40 @@ structure Final where
   shaftUsed : Rat     -- shaft power the shaft balance was computed with
   deriving Repr, DecidableEq
 
-/-- One step. `x0`: given electrical input, `L`: shaft load of the line, `full`: full-PTI flag of
-this step, `anyFull`: some step of the series is in full-PTI mode (second electric pass). -/
-def step (f g : Rat → Rat) (x0 L : Rat) (full anyFull : Bool) : Final :=
+/-- One step of a PTI/PTO in given-power mode. `x0`: given electrical input, `L`: shaft load of the
+line, `full`: full-PTI flag of this step, `anyFull`: some step of the series is in full-PTI mode
+(second electric pass), `rebalance`: a second electric pass ran *and* some PTI/PTO of the plant
+shares the bus load (load-sharing mode 0), so the shaft lines are balanced once more (D21). -/
+def step (f g : Rat → Rat) (x0 L : Rat) (full anyFull rebalance : Bool) : Final :=
   let shaft1 := g x0                         -- electric pass 1 recomputes the shaft side from the input
   let p := if full then L else shaft1        -- shaft balance: full PTI carries the whole load
   let elec2 := f p                           -- … and sets the electrical side from the shaft power
   if anyFull then
-    { elecIn := elec2, shaftOut := g elec2, elecUsed := elec2, shaftUsed := p }
+    let shaft2 := g elec2                    -- electric pass 2
+    if rebalance then
+      let p' := if full then L else shaft2   -- shaft balance 2
+      { elecIn := f p', shaftOut := p', elecUsed := elec2, shaftUsed := p' }
+    else
+      { elecIn := elec2, shaftOut := shaft2, elecUsed := elec2, shaftUsed := p }
   else
     { elecIn := elec2, shaftOut := p, elecUsed := x0, shaftUsed := p }
+
+/-- One step of a PTI/PTO whose electrical power is decided by the electrical balance (load-sharing
+mode 0, never full-PTI): `xb1`, `xb2` are the shares the first and the second electric pass give it. -/
+def stepBalancing (f g : Rat → Rat) (xb1 xb2 : Rat) (anyFull : Bool) : Final :=
+  let p1 := g xb1                            -- electric pass 1, then shaft balance 1 with that shaft power
+  if anyFull then
+    let p2 := g xb2                          -- electric pass 2, shaft balance 2
+    { elecIn := f p2, shaftOut := p2, elecUsed := xb2, shaftUsed := p2 }
+  else
+    { elecIn := f p1, shaftOut := p1, elecUsed := xb1, shaftUsed := p1 }
+
+/-- The same before the repair of D21: no shaft balance after the second electric pass, so the shaft
+line was balanced with the share of the *first* pass. -/
+def stepBalancingLegacy (f g : Rat → Rat) (xb1 xb2 : Rat) (anyFull : Bool) : Final :=
+  let p1 := g xb1
+  if anyFull then { elecIn := xb2, shaftOut := g xb2, elecUsed := xb2, shaftUsed := p1 }
+  else { elecIn := f p1, shaftOut := p1, elecUsed := xb1, shaftUsed := p1 }
 
 /-- `HybridPropulsionSystem._check_configuration` on the PTI/PTO objects (by identity). -/
 def sameMachines (elec mech : List Nat) : Bool :=
